@@ -73,6 +73,17 @@ pub struct RDebug {
     r_ldbase: ElfAddr, /* Base address the linker is loaded at.  */
 }
 
+/// Copies exactly `length` bytes from the target, failing if fewer could be read.
+fn copy_exact_from_process(pid: i32, src: usize, length: usize) -> Result<Vec<u8>> {
+    let data = PtraceDumper::copy_from_process(pid, src, length)?;
+    if data.len() != length {
+        return Err(SectionDsoDebugError::CouldNotFind(
+            "enough readable memory at the expected address",
+        ));
+    }
+    Ok(data)
+}
+
 pub fn write_dso_debug_stream(
     buffer: &mut Buffer,
     blamed_thread: i32,
@@ -85,7 +96,7 @@ pub fn write_dso_debug_stream(
         .get_program_header_address()
         .ok_or(SectionDsoDebugError::CouldNotFind("AT_PHDR in auxv"))? as usize;
 
-    let ph = PtraceDumper::copy_from_process(blamed_thread, phdr, SIZEOF_PHDR * phnum_max)?;
+    let ph = copy_exact_from_process(blamed_thread, phdr, SIZEOF_PHDR * phnum_max)?;
     let program_headers;
     #[cfg(target_pointer_width = "64")]
     {
@@ -131,11 +142,8 @@ pub fn write_dso_debug_stream(
     // DSOs loaded into the program. If this information is indeed available,
     // dump it to a MD_LINUX_DSO_DEBUG stream.
     loop {
-        let dyn_data = PtraceDumper::copy_from_process(
-            blamed_thread,
-            dyn_addr as usize + dynamic_length,
-            dyn_size,
-        )?;
+        let dyn_data =
+            copy_exact_from_process(blamed_thread, dyn_addr as usize + dynamic_length, dyn_size)?;
         dynamic_length += dyn_size;
 
         // goblin::elf::Dyn doesn't have padding bytes
@@ -160,7 +168,7 @@ pub fn write_dso_debug_stream(
     // loader communicates with debuggers.
 
     let debug_entry_data =
-        PtraceDumper::copy_from_process(blamed_thread, r_debug, std::mem::size_of::<RDebug>())?;
+        copy_exact_from_process(blamed_thread, r_debug, std::mem::size_of::<RDebug>())?;
 
     // goblin::elf::Dyn doesn't have padding bytes
     let (head, body, _tail) = unsafe { debug_entry_data.align_to::<RDebug>() };
@@ -171,11 +179,8 @@ pub fn write_dso_debug_stream(
     let mut dso_vec = Vec::new();
     let mut curr_map = debug_entry.r_map;
     while curr_map != 0 {
-        let link_map_data = PtraceDumper::copy_from_process(
-            blamed_thread,
-            curr_map,
-            std::mem::size_of::<LinkMap>(),
-        )?;
+        let link_map_data =
+            copy_exact_from_process(blamed_thread, curr_map, std::mem::size_of::<LinkMap>())?;
 
         // LinkMap is repr(C) and doesn't have padding bytes, so this should be safe
         let (head, body, _tail) = unsafe { link_map_data.align_to::<LinkMap>() };
@@ -233,8 +238,7 @@ pub fn write_dso_debug_stream(
     };
 
     dirent.location.data_size += dynamic_length as u32;
-    let dso_debug_data =
-        PtraceDumper::copy_from_process(blamed_thread, dyn_addr as usize, dynamic_length)?;
+    let dso_debug_data = copy_exact_from_process(blamed_thread, dyn_addr as usize, dynamic_length)?;
     MemoryArrayWriter::write_bytes(buffer, &dso_debug_data);
 
     Ok(dirent)
